@@ -92,5 +92,5 @@ func VH18h_stalled_peer_leaves() {
 	verif.Quiesce()
 	verif.Assert(g2.Done() && e2 == nil, lab+"/fresh-send-to-a-reading-peer-does-not-complete")
 	verif.Reach("h18h-checked")
-	sock.Close()
+	vp.CloseCensus(sock, "C10/after-deadlines")
 }
